@@ -419,11 +419,15 @@ pub fn run_main(args: &[String]) -> i32 {
                     continue;
                 }
                 Ok(None) => {
-                    if ch.last_change.elapsed() > Duration::from_secs(120) {
+                    if ch.last_change.elapsed() > Duration::from_secs(300) {
+                        // keep a picture of the stuck process for diagnosis (best effort)
+                        if let Ok(o) = Command::new("gdb").args(["-p", &ch.proc.id().to_string(), "-batch", "-ex", "thread apply all bt 12"]).output() {
+                            let _ = std::fs::write(verif_dir().join("sim").join("target").join(format!("hang-{}-{}.txt", pid, ch.proc.id())), o.stdout);
+                        }
                         let _ = ch.proc.kill();
                         let _ = ch.proc.wait();
                         let ch = children.remove(i);
-                        harness_errors.push(format!("worker {} made no progress for 120 s at index {} (killed)", ch.k, ch.last_cur.trim()));
+                        harness_errors.push(format!("worker {} made no progress for 300 s at index {} (killed)", ch.k, ch.last_cur.trim()));
                         continue;
                     }
                 }
